@@ -39,6 +39,15 @@ def nearest(ctx, fmt, x, y, base, tag):
   e = fixed.exact_code(fmt, x)
   ctx.evals(k.size)
   tol = 0.5 + fmt.slack + fixed.code_tolerance(fmt, x, y, k)
+  # "a representable code": C01's lattice test on the same outputs (a value half-way between the two codes
+  # of a one-bit format is within half a step of the input and still not a code)
+  ctol = fixed.code_tolerance(fmt, x, y, k)
+  off = (np.abs(k - np.round(k)) > ctol) | (np.round(k) < fmt.lo) | (np.round(k) > fmt.hi)
+  if off.any() and np.all(np.isfinite(y)):
+    i = int(np.argmax(off))
+    ctx.violation(dict(base, kind="output_is_not_a_representable_code"),
+                  "x=%r -> %r (code %g, codes %d..%d)" % (float(x.flat[i]), float(y.flat[i]), float(k.flat[i]), fmt.lo, fmt.hi),
+                  {"x": float(x.flat[i]), "y": float(y.flat[i]), "tag": tag})
   err = np.abs(k - e)
   bad = err > tol
   if bad.any():
